@@ -288,6 +288,30 @@ def chain_trace(rng):
     return tr
 
 
+def concat_trace(rng):
+    """Focused history: repeated concatenation with the partial results kept - ab = a + b, abc = ab + c (or extend) -
+    then an editing method on the result or a descendant: a, b, c, ab and abc all handed on the edited dicts."""
+    init = [{"a": rng.choice([0, 1]), "b": rng.choice([-1, 0, 1])} for _ in range(rng.randint(1, 2))]
+    s = Session(init, False)
+    tr = {"init": {"items": [to_abs_nested(x) for x in s.keep], "lists": [[s.ids[id(it)] for it in list.__iter__(s.lists[0])]]},
+          "nested": False, "steps": []}
+
+    def do(e):
+        e["obs"] = s.step(e)
+        tr["steps"].append(e)
+        return not e["obs"]["err"]
+    ok = do({"x": 1, "o": 0, "a": {"op": "deepcopy"}}) and do({"x": 1, "o": 0, "a": {"op": "deepcopy"}})       # lists 2, 3: b and c
+    ok = ok and do({"x": 1, "o": 2, "a": {"op": rng.choice(["add", "extend"])}})                                   # list 4: ab
+    ok = ok and do({"x": 4, "o": 3, "a": {"op": rng.choice(["add", "extend"])}})                                   # list 5: abc
+    x = 5
+    if ok and rng.random() < 0.5:
+        ok = do({"x": 5, "o": 0, "a": rng.choice([{"op": "copy"}, {"op": "reverse"}, {"op": "filter", "p": {"f": "true"}}])})
+        x = 6
+    if ok:
+        do({"x": x, "o": 0, "a": rng.choice([{"op": "modify", "k": "x", "g": {"f": "const", "v": 1}}, {"op": "fill", "kv": [["x", -1]]}])})
+    return tr
+
+
 def rename_join_trace(rng):
     """Focused history: a copy of the list with its join key renamed (new dicts), then a join of the original with it
     on differently named keys: the right-hand operand is left exactly as it was - items, flags, no warning."""
@@ -360,6 +384,7 @@ def run(ctx):
     traces += [deepcopy_trace(rng) for _ in range(ntr // 4)]
     traces += [chain_trace(rng) for _ in range(ntr // 5)]
     traces += [rename_join_trace(rng) for _ in range(ntr // 8)]
+    traces += [concat_trace(rng) for _ in range(ntr // 10)]
     # spec -> code: every behaviour of the session machine enumerated by TLC (LoDSMGen) is replayed call by call
     gcfg = "INIT Init\nNEXT Next\nINVARIANT Inv\nCONSTANTS\n  MaxLists = %d\n  MaxItems = 12\n  PreEvents = {%s}\n"
     rg = ctx.model_check("LoDSMGen", cfg_text=gcfg % (3, '"", "keys", "pluck", "poke"'), timeout=3000)
